@@ -378,6 +378,12 @@ std::vector<Node> curated() {
     "(D1\xC3\x97" "D1)\xE2\x88\xAAS1", "S1\xE2\x88\xAA(D1\xC3\x97" "D1)", "\xE2\x84\xAC(D1)\xE2\x88\xAAS2", "S2\xE2\x88\xAA\xE2\x84\xAC(D1)",
     "(D1\xC3\x97" "D1)\xE2\x88\x86S1", "S1\\(D1\xC3\x97" "D1)", "(D1\xC3\x97" "D1)\\S1", "(D1\xC3\x97" "D1)\xE2\x88\xA9S1", "S2\xE2\x88\xA9\xE2\x84\xAC(D1)", "\xE2\x84\xAC(D1)\\S2", "S2\xE2\x88\x86\xE2\x84\xAC(D1)",
     "S1\xE2\x8A\x86" "D1\xC3\x97" "D1", "D1\xC3\x97" "D1\xE2\x8A\x86S1", "\xE2\x84\xAC(D1)\xE2\x8A\x82S2", "card((D1\xC3\x97" "D1)\xE2\x88\xAAS1)", "R{a:=D1\xC3\x97" "D1 | a\xE2\x88\xAAS1}", "red(\xE2\x84\xAC(D1)\xE2\x88\xAAS2)", "Pr1((D1\xC3\x97X1)\xE2\x88\xAAS1)",
+    // sets of sets mixing lazy and enumerated representations of their members (the inner order must not depend on representation)
+    "D{a\xE2\x88\x88X1\xC3\x97" "D1 | 1=1}\xE2\x88\x88{X1\xC3\x97" "D1, D1\xC3\x97X1}", "D{a\xE2\x88\x88" "D1\xC3\x97X1 | 1=1}\xE2\x88\x88{X1\xC3\x97" "D1, D1\xC3\x97X1}",
+    "{X1\xC3\x97" "D1, D1\xC3\x97X1}={D{a\xE2\x88\x88X1\xC3\x97" "D1 | 1=1}, D{a\xE2\x88\x88" "D1\xC3\x97X1 | 1=1}}",
+    "card({X1\xC3\x97" "D1, D1\xC3\x97X1}\xE2\x88\xAA{D{a\xE2\x88\x88X1\xC3\x97" "D1 | 1=1}})", "{D1\xC3\x97X1, X1\xC3\x97" "D1}\xE2\x8A\x86{D{a\xE2\x88\x88X1\xC3\x97" "D1 | 1=1}, D{a\xE2\x88\x88" "D1\xC3\x97X1 | 1=1}}",
+    "D{a\xE2\x88\x88\xE2\x84\xAC(D1) | 1=1}\xE2\x88\x88{\xE2\x84\xAC(D1), \xE2\x84\xAC(X1\\D1)}", "card({\xE2\x84\xAC(D1), \xE2\x84\xAC(X1\\D1)}\xE2\x88\xAA{D{a\xE2\x88\x88\xE2\x84\xAC(X1\\D1) | 1=1}})",
+    "{\xE2\x84\xAC(D1), \xE2\x84\xAC(X1\\D1)}\\{D{a\xE2\x88\x88\xE2\x84\xAC(D1) | 1=1}}",
     // the same local reused in sibling scopes
     "\xE2\x88\x80" "a\xE2\x88\x88X1 a\xE2\x88\x88" "D1 & \xE2\x88\x83" "a\xE2\x88\x88X1 a\xE2\x88\x88" "D1",
     "D{a\xE2\x88\x88X1 | a\xE2\x88\x88" "D1}\xE2\x88\xAA" "D{a\xE2\x88\x88X1 | a\xE2\x88\x89" "D1}",
